@@ -3,7 +3,7 @@
    `reachable c s` = s is the state after SOME event list accepted by the parallel_safe transition system of
    configuration c (size, instances, argument entries, failing subset): all interleavings of the main thread and
    the member threads, with no bound on anything. *)
-From CF Require Import Common.Bytes C19.Model C19.Proofs C19.Proofs_b C19.Proofs_c C19.Proofs_d C19.Proofs_e C19.Proofs_f C19.Proofs_g C19.Proofs_h C19.Proofs_i.
+From CF Require Import Common.Bytes C19.Model C19.Proofs C19.Proofs_b C19.Proofs_c C19.Proofs_d C19.Proofs_e C19.Proofs_f C19.Proofs_g C19.Proofs_h C19.Proofs_i C19.Proofs_j.
 From Coq Require Import Permutation.
 Open Scope nat_scope.
 
@@ -299,3 +299,20 @@ Theorem C19_member_open_waiting_refuted :
   member_open_waiting_ends true false = false /\ member_open_ends true false = true.
 Proof. split; reflexivity. Qed.
 Print Assumptions C19_member_open_waiting_refuted.
+
+(* ---- Wave 17: close_links calls close_link() on every member and ignores the return values: after close_links, and
+   after the close_links of a failed open_links (C19_open_failure_closes_all_and_raises), no member has an open link,
+   whatever the members' close_link() return and whichever links were open before. *)
+Theorem C19_no_link_open_after_close : forall c ret open_before k, k < n c ->
+  link_open_after open_before (close_calls_head c ret) k = false.
+Proof. exact no_link_open_after_close. Qed.
+Print Assumptions C19_no_link_open_after_close.
+
+(* refutation of accumulating the return values with a short-circuiting `and`: member 0 failed to open (its close_link()
+   returns False), members 1 and 2 stay open *)
+Theorem C19_shortcircuit_close_refuted :
+  exists c ret open_before k, k < n c /\ open_before k = true /\
+    link_open_after open_before (close_calls_shortcircuit c ret) k = true /\
+    link_open_after open_before (close_calls_head c ret) k = false.
+Proof. exact shortcircuit_close_refuted. Qed.
+Print Assumptions C19_shortcircuit_close_refuted.
